@@ -145,7 +145,13 @@ TEdit ==
    /\ LET e    == Tr.ops[l]
           old  == e.op \in EditOps
           op3  == <<e.op, e.i, e.x>>
-          d2   == IF old THEN EditApply(D, e.op, e.v)
+          \* add_change / add_change(''): any position among the change lines of the first block is accepted
+          \* (the one whose blocks are the observed ones); today's position otherwise
+          adds == e.op \in {"AddBlank", "AddChange"} /\ Len(D.bl) > 0
+          cand == IF adds THEN {EditApply(D, e.op, <<e.v[1], p>>) : p \in InsertChoices(D.bl[1].ch)} ELSE {}
+          hit  == {c \in cand : BlocksProj(c) = e.bl}
+          d2   == IF adds /\ hit # {} THEN CHOOSE c \in hit : TRUE
+                  ELSE IF old THEN EditApply(D, e.op, e.v)
                   ELSE IF e.op = "BRest" THEN [D EXCEPT !.bl[e.i].h[5] = e.v[1]]      \* other_pairs after an in-place edit, as observed
                   ELSE IF e.op = "Reparse" THEN D
                   ELSE HApply(D, op3, e.v)
@@ -168,7 +174,7 @@ TEdit ==
          /\ (e.fobs /\ tgt = 0 /\ e.fmt /\ Specified(d2)) => e.nf        \* C15, histories
          /\ Tr.wf => (same /\ shown /\ again)                        \* C04, histories: every output is the reference Format of the CURRENT
                                                                      \* document; the blocks expose what was written / assigned
-         /\ (~VerdictOnly => (same /\ shown /\ again))
+         /\ (~VerdictOnly => (same /\ shown /\ again /\ (adds => d2 = EditApply(D, e.op, e.v))))   \* diagnostic: today's position
          /\ ((~VerdictOnly /\ l = 1) => Tr.bl0 = BlocksProj(D))
          /\ rs' = [rs EXCEPT !.mut = mut2]
    /\ l' = l + 1 /\ UNCHANGED <<P, sraised, gs>> /\ Frame
